@@ -16,7 +16,7 @@ PROP = "C11"
 RULE = ("request streams from the HTTP grammar (all verb families, targets, 0-3 headers, CRLF/LF) and ONC-RPC calls over TCP "
         "(record mark, credentials/verifiers of 0..40 bytes, optional arguments; also bodies whose lengths are not multiples of 4, with the trigger calibrated from the byte-wise run), single-fault negatives and foreign-preface negatives; for each stream ALL "
         "one-cut and ALL two-cut compositions, random k-cuts (k <= 8) and byte-wise delivery, each on a fresh flow, the sessions of a stream accumulating in one connection table (thousands of control blocks) and interleaved round-robin within batches of 150 (new client address and port; the contacted endpoint is fixed per stream because portmapper replies advertise it). Per segment the reply is compared with the model: bare ACK (flags = ACK, no "
-        "payload, seq = peer ack, ack = peer seq + len) before the trigger byte, the canonical reply of the unsegmented run in "
+        "payload, seq = peer ack, ack = peer seq + len) before the trigger byte (12 % of the sessions carry bare client ACKs before and between their data segments; logger / verbosity at random), the canonical reply of the unsegmented run in "
         "the segment containing the trigger byte. The trigger byte comes from the grammar (HTTP: LF of the empty line; RPC: last "
         "verifier byte) and is cross-checked against the byte-wise run. Non-trivial = segmentations with a cut strictly before "
         "the trigger byte; distinct = distinct (stream, cut positions).")
